@@ -37,6 +37,8 @@ def seeded_table():
         for (c, t), r in sorted(last.items()):
             res.append("%s %s/%s: **%s**%s" % (c, t, r["seed"], "caught" if r["fired"] else ("silent" if r["exit"] == 0 else "inconclusive"),
                                               (" (`%s`)" % r["keys"][0].replace("|", "\\|")[:90]) if r["fired"] and r.get("keys") else ""))
+        if m.get("status"):
+            res.append("*%s*" % m["status"].split(":")[0])
         rows.append("| `%s` | %s | %s | %s |" % (m["id"], m["property"], m["needs_to_manifest"].replace("|", "\\|"), "; ".join(res) or "not run yet"))
     return "\n".join(rows)
 
